@@ -1,3 +1,281 @@
-import DPL.Model.Discrete
+/-
+C01 — discrete mechanisms: the sampler that actually runs is ε-DP.
+
+Every statement is about the executable model `DPL/Model/Discrete.lean` (the very definitions the driver runs on doubles
+against the Python code), instantiated at ℝ.  A sampler is a function of its uniform(s); for single-uniform samplers
+"the probability of output o" is the Lebesgue measure of `{u ∈ [0,1) | sampler u = o}`; for the multi-uniform samplers
+(`bernoulli_neg_exp`, permute-and-flip) the law is the recursion mirroring the branching (`pafLaw`, `stopAt`), each
+comparison `u ≤ t` being a Bernoulli(t) branch and `int(u·n)` a uniform index (`index_law`).
+Proofs of the helper lemmas are in `DPL/Proofs/Discrete*.lean`.
+-/
+import DPL.Proofs.DiscreteExp
+import DPL.Proofs.DiscreteSelect
+import DPL.Proofs.DiscreteCat
+import DPL.Proofs.DiscreteBern
+import DPL.Proofs.DiscreteGeomDP
+import DPL.Proofs.DiscretePAF
+
 namespace DPL.C01
+open DPL DPL.Discrete MeasureTheory Set
+open scoped ENNReal
+
+/-! ### Binary -/
+
+/-- `Binary.randomise` flips its input for a set of uniforms of measure `1/(e^ε+1)` and keeps it with `e^ε/(e^ε+1)` -/
+theorem binary_law (eps : ℝ) (ind : Bool) :
+    volume {u : ℝ | u ∈ Ico (0:ℝ) 1 ∧ binaryRandomise eps 0 ind u = !ind} = ENNReal.ofReal (1 / (Real.exp eps + 1)) ∧
+    volume {u : ℝ | u ∈ Ico (0:ℝ) 1 ∧ binaryRandomise eps 0 ind u = ind}
+      = ENNReal.ofReal (Real.exp eps / (Real.exp eps + 1)) := by
+  refine ⟨by rw [binary_flip_volume]; simp [binaryFlipProb], ?_⟩
+  rw [binary_keep_volume]; congr 1; simp [binaryFlipProb]; ring
+
+/-- for both inputs and both outputs `P[M(x)=o] ≤ e^ε · P[M(x')=o]` -/
+theorem binary_dp (eps : ℝ) (heps : 0 ≤ eps) (x x' o : Bool) :
+    volume {u : ℝ | u ∈ Ico (0:ℝ) 1 ∧ binaryRandomise eps 0 x u = o}
+      ≤ ENNReal.ofReal (Real.exp eps) * volume {u : ℝ | u ∈ Ico (0:ℝ) 1 ∧ binaryRandomise eps 0 x' u = o} :=
+  binary_ratio eps heps x x' o
+
+/-! ### Geometric, GeometricTruncated, GeometricFolded -/
+
+/-- the noise of `Geometric.randomise`: the uniforms giving noise `k` form a set of measure `(1-r)/(1+r)·r^|k|`,
+`r = e^s` (`s = -ε/sensitivity < 0`) -/
+theorem geom_law (s : ℝ) (hs : s < 0) (k : ℤ) :
+    volume {u : ℝ | u ∈ Ico (0:ℝ) 1 ∧ geomNoise s u = k}
+      = ENNReal.ofReal ((1 - Real.exp s) / (1 + Real.exp s) * Real.exp s ^ k.natAbs) := by
+  rw [Discrete.geom_law s hs k, geomPmf_eq_pow]
+
+example : volume {u : ℝ | u ∈ Ico (0:ℝ) 1 ∧ geomNoise (-1) u = 3}
+    = ENNReal.ofReal ((1 - Real.exp (-1)) / (1 + Real.exp (-1)) * Real.exp (-1) ^ 3) :=
+  geom_law (-1) (by norm_num) 3
+
+/-- atom-wise ε-DP of `Geometric.randomise` for integer inputs at most `sensitivity` apart (sensitivity 0 included) -/
+theorem geom_dp (eps : ℝ) (heps : 0 < eps) (sens : ℕ) (x x' : ℤ) (hnb : |x - x'| ≤ (sens : ℤ)) (o : ℤ) :
+    volume {u : ℝ | u ∈ Ico (0:ℝ) 1 ∧ geomRandomise eps sens x u = o}
+      ≤ ENNReal.ofReal (Real.exp eps) * volume {u : ℝ | u ∈ Ico (0:ℝ) 1 ∧ geomRandomise eps sens x' u = o} :=
+  Discrete.geom_dp eps heps sens x x' hnb o
+
+example : |(5:ℤ) - 7| ≤ ((2:ℕ) : ℤ) := by norm_num
+
+/-- an atom-wise bound lifts to every set of outputs (countable output space; no summability side conditions) -/
+theorem dp_sets_of_atoms {Ω ι : Type*} [MeasurableSpace Ω] [Countable ι] (μ : Measure Ω) (A : Set Ω) (f f' : Ω → ι)
+    (hm' : ∀ o, NullMeasurableSet (A ∩ f' ⁻¹' {o}) μ) (K : ℝ≥0∞)
+    (hat : ∀ o, μ (A ∩ f ⁻¹' {o}) ≤ K * μ (A ∩ f' ⁻¹' {o})) (S : Set ι) :
+    μ (A ∩ f ⁻¹' S) ≤ K * μ (A ∩ f' ⁻¹' S) :=
+  Discrete.dp_sets_of_atoms μ A f f' hm' K hat S
+
+/-- … and survives any post-processing `g` that does not depend on the input -/
+theorem dp_postprocess {Ω ι β : Type*} [MeasurableSpace Ω] [Countable ι] (μ : Measure Ω) (A : Set Ω) (f f' : Ω → ι)
+    (hm' : ∀ o, NullMeasurableSet (A ∩ f' ⁻¹' {o}) μ) (K : ℝ≥0∞)
+    (hat : ∀ o, μ (A ∩ f ⁻¹' {o}) ≤ K * μ (A ∩ f' ⁻¹' {o})) (g : ι → β) (T : Set β) :
+    μ (A ∩ (g ∘ f) ⁻¹' T) ≤ K * μ (A ∩ (g ∘ f') ⁻¹' T) :=
+  Discrete.dp_postprocess μ A f f' hm' K hat g T
+
+/-- `GeometricTruncated.randomise`, every pair of bounds (integer or infinite), every set of outputs -/
+theorem geom_trunc_dp (eps : ℝ) (heps : 0 < eps) (sens : ℕ) (x x' : ℤ) (hnb : |x - x'| ≤ (sens : ℤ))
+    (lo hi : Bnd) (T : Set (Option ℤ)) :
+    volume {u : ℝ | u ∈ Ico (0:ℝ) 1 ∧ geomTruncRandomise eps sens lo hi x u ∈ T}
+      ≤ ENNReal.ofReal (Real.exp eps) * volume {u : ℝ | u ∈ Ico (0:ℝ) 1 ∧ geomTruncRandomise eps sens lo hi x' u ∈ T} :=
+  Discrete.geom_trunc_dp eps heps sens x x' hnb lo hi T
+
+/-- `GeometricFolded.randomise`, every pair of bounds (integer, half-integer or infinite), every set of outputs -/
+theorem geom_fold_dp (eps : ℝ) (heps : 0 < eps) (sens : ℕ) (x x' : ℤ) (hnb : |x - x'| ≤ (sens : ℤ))
+    (lo hi : Bnd) (fuel : ℕ) (T : Set (Option ℤ)) :
+    volume {u : ℝ | u ∈ Ico (0:ℝ) 1 ∧ geomFoldRandomise eps sens lo hi fuel x u ∈ T}
+      ≤ ENNReal.ofReal (Real.exp eps) *
+        volume {u : ℝ | u ∈ Ico (0:ℝ) 1 ∧ geomFoldRandomise eps sens lo hi fuel x' u ∈ T} :=
+  Discrete.geom_fold_dp eps heps sens x x' hnb lo hi fuel T
+
+/-! ### Exponential -/
+
+/-- `Exponential.randomise` on cumulative probabilities: candidate `i` is returned for a set of uniforms of measure
+`p_i` (the `isclose` fallback and the RuntimeError are unreachable when the probabilities sum to one) -/
+theorem exp_select_law (rtol atol : ℝ) (ps : List ℝ) (hnn : ∀ p ∈ ps, 0 ≤ p) (hsum : ps.sum = 1) (i : ℕ)
+    (hi : i < ps.length) :
+    volume {u : ℝ | u ∈ Ico (0:ℝ) 1 ∧ expSelect rtol atol (cumFrom 0 ps) u = .ok i} = ENNReal.ofReal ps[i] :=
+  expSelect_law rtol atol ps hnn hsum i hi
+
+example : volume {u : ℝ | u ∈ Ico (0:ℝ) 1 ∧ expSelect 0 0 (cumFrom 0 [1/4, 3/4]) u = .ok 1}
+    = ENNReal.ofReal ([1/4, 3/4] : List ℝ)[1] :=
+  exp_select_law 0 0 [1/4, 3/4] (by intro p hp; simp at hp; rcases hp with rfl | rfl <;> norm_num) (by norm_num) 1
+    (by simp)
+
+private theorem us'_ne {us us' : List ℝ} (hlen : us.length = us'.length) (hne : us ≠ []) : us' ≠ [] := by
+  intro h; apply hne; apply List.eq_nil_of_length_eq_zero; rw [hlen, h]; rfl
+
+/-- the exponential mechanism as coded (shift by `max(utility)`, `exp`, base measure, normalisation): utility vectors
+within `sensitivity` in sup-norm, scale `ε/(2·sensitivity)`, non-negative measure with a positive entry (or none) -/
+theorem exp_dp (eps sens tol : ℝ) (heps : 0 < eps) (hsens : 0 < sens) (us us' ms : List ℝ)
+    (hlen : us.length = us'.length) (hne : us ≠ []) (hms : ms = [] ∨ ms.length = us.length)
+    (hm0 : ∀ m ∈ ms, 0 ≤ m) (hpos : ms = [] ∨ ∃ m ∈ ms, 0 < m)
+    (hnb : ∀ i (h1 : i < us.length) (h2 : i < us'.length), |us[i] - us'[i]| ≤ sens) (i : ℕ) :
+    (expPmf eps sens false tol us ms).getD i 0 ≤ Real.exp eps * (expPmf eps sens false tol us' ms).getD i 0 := by
+  have hne' := us'_ne hlen hne
+  have hms' : ms = [] ∨ ms.length = us'.length := by rw [← hlen]; exact hms
+  unfold expPmf
+  have hsc : expScale eps sens false = some (eps / sens / 2) := by simp [expScale, div_pos hsens heps]
+  rw [hsc]
+  refine exp_dp_core (eps / sens / 2) (-sens) sens eps tol (by positivity) (by field_simp; ring_nf; rfl) us' us ms
+    hlen.symm hne' hms' hm0 (fun j h1 h2 => ?_)
+    (expWeights_sum_pos _ tol us' ms hne' hms' hm0 hpos) (expWeights_sum_pos _ tol us ms hne hms hm0 hpos) i
+  have := abs_le.mp (hnb j h2 h1)
+  constructor <;> linarith [this.1, this.2]
+
+example : ∀ i (h1 : i < ([0, 1] : List ℝ).length) (h2 : i < ([1, 1] : List ℝ).length),
+    |([0, 1] : List ℝ)[i] - ([1, 1] : List ℝ)[i]| ≤ 1 := by
+  intro i h1 h2
+  have : i = 0 ∨ i = 1 := by simp at h1; omega
+  rcases this with rfl | rfl <;> norm_num
+
+/-- monotonic utilities (`u ≤ u' ≤ u + sensitivity` pointwise): scale `ε/sensitivity`, both directions -/
+theorem exp_dp_monotonic (eps sens tol : ℝ) (heps : 0 < eps) (hsens : 0 < sens) (us us' ms : List ℝ)
+    (hlen : us.length = us'.length) (hne : us ≠ []) (hms : ms = [] ∨ ms.length = us.length)
+    (hm0 : ∀ m ∈ ms, 0 ≤ m) (hpos : ms = [] ∨ ∃ m ∈ ms, 0 < m)
+    (hnb : ∀ i (h1 : i < us.length) (h2 : i < us'.length), us[i] ≤ us'[i] ∧ us'[i] ≤ us[i] + sens) (i : ℕ) :
+    (expPmf eps sens true tol us ms).getD i 0 ≤ Real.exp eps * (expPmf eps sens true tol us' ms).getD i 0 ∧
+    (expPmf eps sens true tol us' ms).getD i 0 ≤ Real.exp eps * (expPmf eps sens true tol us ms).getD i 0 := by
+  have hne' := us'_ne hlen hne
+  have hms' : ms = [] ∨ ms.length = us'.length := by rw [← hlen]; exact hms
+  unfold expPmf
+  have hsc : expScale eps sens true = some (eps / sens / 1) := by simp [expScale, div_pos hsens heps]
+  rw [hsc]
+  have hZ := expWeights_sum_pos (eps / sens / 1) tol us ms hne hms hm0 hpos
+  have hZ' := expWeights_sum_pos (eps / sens / 1) tol us' ms hne' hms' hm0 hpos
+  constructor
+  · refine exp_dp_core (eps / sens / 1) (-sens) 0 eps tol (by positivity) (by field_simp; ring_nf; rfl) us' us ms
+      hlen.symm hne' hms' hm0 (fun j h1 h2 => ?_) hZ' hZ i
+    have := hnb j h2 h1
+    constructor <;> linarith [this.1, this.2]
+  · refine exp_dp_core (eps / sens / 1) 0 sens eps tol (by positivity) (by field_simp; ring_nf; rfl) us us' ms
+      hlen hne hms hm0 (fun j h1 h2 => ?_) hZ hZ' i
+    have := hnb j h1 h2
+    constructor <;> linarith [this.1, this.2]
+
+/-- degenerate branch (`sensitivity = 0`, infinite scale): neighbours within sup-norm 0 are equal, so the laws are -/
+theorem exp_dp_degenerate (eps tol : ℝ) (heps : 0 ≤ eps) (mono : Bool) (us us' ms : List ℝ)
+    (hlen : us.length = us'.length)
+    (hnb : ∀ i (h1 : i < us.length) (h2 : i < us'.length), |us[i] - us'[i]| ≤ 0) (i : ℕ)
+    (hnn : 0 ≤ (expPmf eps 0 mono tol us' ms).getD i 0) :
+    (expPmf eps 0 mono tol us ms).getD i 0 ≤ Real.exp eps * (expPmf eps 0 mono tol us' ms).getD i 0 := by
+  have : us = us' := by
+    apply List.ext_getElem hlen
+    intro j h1 h2
+    have := abs_nonpos_iff.mp (hnb j h1 h2)
+    linarith
+  subst this
+  have he : 1 ≤ Real.exp eps := Real.one_le_exp heps
+  nlinarith
+
+/-! ### bernoulli_neg_exp -/
+
+/-- the inner loop of `bernoulli_neg_exp` stops with `counter = n+1` exactly when the first `n` uniforms pass their
+tests `u_j ≤ γ/j` and the next one fails; it then returns `(n+1) % 2`.  For `0 ≤ γ ≤ 1` each test is a Bernoulli(γ/j)
+branch (`branch_prob_range`), so the event has probability `stopAt γ n = Π_{j≤n} γ/j · (1 − γ/(n+1))`; the coin is 1
+iff `n` is even, and those probabilities sum to `exp(−γ)`. -/
+theorem bernoulli_neg_exp_law (γ : ℝ) :
+    (∀ (pre : List ℝ) (u : ℝ) (rest : List ℝ),
+        (∀ j (h : j < pre.length), pre[j] ≤ γ / ((1 + j : ℕ) : ℝ)) → ¬ u ≤ γ / ((1 + pre.length : ℕ) : ℝ) →
+        bernLoop γ (pre ++ u :: rest) 1 = .ok ((1 + pre.length) % 2 == 1, rest)) ∧
+    (∀ n : ℕ, stopAt γ n = (∏ j ∈ Finset.range n, γ / ((j : ℝ) + 1)) * (1 - γ / ((n : ℝ) + 1))) ∧
+    HasSum (fun m : ℕ => stopAt γ (2 * m)) (bernLaw γ) :=
+  ⟨fun pre u rest h1 h2 => bernLoop_stop γ pre u rest 1 h1 h2, stopAt_eq_prod γ, by
+    simpa [bernLaw] using bern_even_sum γ⟩
+
+/-- for `γ > 1` the outer loop multiplies unit coins: the mirrored recursion is again `exp(−γ)` -/
+theorem bernoulli_neg_exp_outer_law (fuel : ℕ) (γ : ℝ) (h0 : 0 ≤ γ) (h : γ < fuel) :
+    bernOuterLaw fuel γ = bernLaw γ := by
+  simpa [bernLaw] using bernOuterLaw_eq fuel γ h0 h
+
+/-! ### PermuteAndFlip -/
+
+/-- `int(u·n)` picks every index with probability `1/n` -/
+theorem index_law (n : ℕ) (hn : 0 < n) (j : ℕ) (hj : j < n) :
+    volume {u : ℝ | u ∈ Ico (0:ℝ) 1 ∧ (⌊u * (n : ℝ)⌋).toNat = j} = ENNReal.ofReal (1 / (n : ℝ)) :=
+  Discrete.index_law n hn j hj
+
+/-- the sampler's own branching recursion (`pafLaw`, executable, printed by the driver and compared with the law
+extracted from the running code) equals the closed recursion `L p S r = p_r · I p (S∖r)` of the proof -/
+theorem paf_law_closed (p : ℕ → ℝ) (ids : List ℕ) (hnd : ids.Nodup) (fuel : ℕ) (hf : ids.length ≤ fuel) (r : ℕ) :
+    pafLaw p fuel ids r = if r ∈ ids then PAF.L p ids.toFinset r else 0 :=
+  pafLaw_eq_L p ids hnd fuel hf r
+
+/-- permute-and-flip as coded (`p_i = exp(scale·(u_i − max u))`, scale `ε/(2·sensitivity)`), any number of candidates -/
+theorem paf_dp (eps sens : ℝ) (heps : 0 < eps) (hsens : 0 < sens) (us us' : List ℝ)
+    (hlen : us.length = us'.length) (hne : us ≠ [])
+    (hnb : ∀ i (h1 : i < us.length) (h2 : i < us'.length), |us[i] - us'[i]| ≤ sens) (r : ℕ) :
+    (pafPmf (pafHeads (pafLogProbs (expScale eps sens false) us))).getD r 0
+      ≤ Real.exp eps * (pafPmf (pafHeads (pafLogProbs (expScale eps sens false) us'))).getD r 0 :=
+  Discrete.paf_dp eps sens heps hsens us us' hlen hne hnb r
+
+/-- monotonic utilities: scale `ε/sensitivity`, both directions -/
+theorem paf_dp_monotonic (eps sens : ℝ) (heps : 0 < eps) (hsens : 0 < sens) (us us' : List ℝ)
+    (hlen : us.length = us'.length) (hne : us ≠ [])
+    (hnb : ∀ i (h1 : i < us.length) (h2 : i < us'.length), us[i] ≤ us'[i] ∧ us'[i] ≤ us[i] + sens) (r : ℕ) :
+    (pafPmf (pafHeads (pafLogProbs (expScale eps sens true) us))).getD r 0
+        ≤ Real.exp eps * (pafPmf (pafHeads (pafLogProbs (expScale eps sens true) us'))).getD r 0
+      ∧ (pafPmf (pafHeads (pafLogProbs (expScale eps sens true) us'))).getD r 0
+        ≤ Real.exp eps * (pafPmf (pafHeads (pafLogProbs (expScale eps sens true) us))).getD r 0 :=
+  Discrete.paf_dp_monotonic eps sens heps hsens us us' hlen hne hnb r
+
+/-- the selection probabilities of permute-and-flip sum to `1 − Π(1 − p_i)` (to 1 as soon as one head probability is 1,
+which the shift by the maximum guarantees) -/
+theorem paf_total_mass (heads : List ℝ) :
+    lsum (pafPmf heads) = 1 - ∏ i ∈ Finset.range heads.length, (1 - heads.getD i 0) :=
+  pafPmf_sum heads
+
+/-! ### ExponentialCategorical / ExponentialHierarchical -/
+
+/-- the constructor keeps every utility in `[0, sensitivity]` (sensitivity = the largest listed value) -/
+theorem cat_utility_range (rtol atol eps : ℝ) (ul : List (ℕ × ℕ × ℝ)) (c : Cat ℝ)
+    (h : catBuild rtol atol eps ul = .ok c) (a b : ℕ) :
+    0 ≤ catUtility c.util a b ∧ catUtility c.util a b ≤ c.sens :=
+  catBuild_utility_range rtol atol eps ul c h a b
+
+/-- unbalanced case (factor 2 kept): any two labels, any output -/
+theorem cat_dp_unbalanced (rtol atol eps : ℝ) (heps : 0 ≤ eps) (ul : List (ℕ × ℕ × ℝ)) (c : Cat ℝ)
+    (hb : catBuild rtol atol eps ul = .ok c) (hs : 0 < c.sens) (hbal : c.balanced = false)
+    (x x' : ℕ) (hx : x ∈ c.domain) (hx' : x' ∈ c.domain) (j : ℕ) :
+    (catPmf eps c x).getD j 0 ≤ Real.exp eps * (catPmf eps c x').getD j 0 :=
+  cat_dp_unbalanced_aux eps heps c (catBuild_wf rtol atol eps ul c hb) hbal hs
+    (catBuild_utility_range rtol atol eps ul c hb) x x' hx hx' j
+
+/-- balanced case (factor 2 dropped): correct when the two normalisers are EQUAL -/
+theorem cat_dp_balanced (rtol atol eps : ℝ) (heps : 0 ≤ eps) (ul : List (ℕ × ℕ × ℝ)) (c : Cat ℝ)
+    (hb : catBuild rtol atol eps ul = .ok c) (hs : 0 < c.sens) (hbal : c.balanced = true)
+    (x x' : ℕ) (hx : x ∈ c.domain) (hx' : x' ∈ c.domain)
+    (hZ : (catWeights eps c x).sum = (catWeights eps c x').sum) (j : ℕ) :
+    (catPmf eps c x).getD j 0 ≤ Real.exp eps * (catPmf eps c x').getD j 0 :=
+  cat_dp_balanced_aux eps heps c (catBuild_wf rtol atol eps ul c hb) hbal hs
+    (catBuild_utility_range rtol atol eps ul c hb) x x' hx hx' hZ j
+
+/-- end-to-end for whatever the constructor decides, under the hypothesis the code's decision needs: when the
+(`np.isclose`-based) balanced flag is set, the normalisers are equal.  The faithful model sets the flag when they are
+within `rtol` relative (1e-12 since 252dfe7, 1e-5 before — which was a genuine excess of up to 2e-5 over `e^ε`). -/
+theorem cat_dp_partial (rtol atol eps : ℝ) (heps : 0 ≤ eps) (ul : List (ℕ × ℕ × ℝ)) (c : Cat ℝ)
+    (hb : catBuild rtol atol eps ul = .ok c) (hs : 0 < c.sens)
+    (hflag : c.balanced = true → ∀ x ∈ c.domain, ∀ x' ∈ c.domain, (catWeights eps c x).sum = (catWeights eps c x').sum)
+    (x x' : ℕ) (hx : x ∈ c.domain) (hx' : x' ∈ c.domain) (j : ℕ) :
+    (catPmf eps c x).getD j 0 ≤ Real.exp eps * (catPmf eps c x').getD j 0 := by
+  cases hbal : c.balanced with
+  | false => exact cat_dp_unbalanced rtol atol eps heps ul c hb hs hbal x x' hx hx' j
+  | true => exact cat_dp_balanced rtol atol eps heps ul c hb hs hbal x x' hx hx' (hflag hbal x hx x' hx') j
+
+/-- the full claim (no hypothesis on the flag).  NOT proved and false in exact arithmetic for `rtol > 0`: normalisers
+within the tolerance but unequal give a ratio `e^ε·Z_{x'}/Z_x > e^ε`; with the code's `rtol = 1e-12` the excess is
+at most 1e-12 relative, far inside the property's 1e-6 slack (checked on the running code by the harness). -/
+def cat_dp_full : Prop :=
+  ∀ (rtol atol eps : ℝ), 0 ≤ eps → ∀ (ul : List (ℕ × ℕ × ℝ)) (c : Cat ℝ), catBuild rtol atol eps ul = .ok c →
+    0 < c.sens → ∀ x ∈ c.domain, ∀ x' ∈ c.domain, ∀ j : ℕ,
+      (catPmf eps c x).getD j 0 ≤ Real.exp eps * (catPmf eps c x').getD j 0
+
+/-- the utilities `ExponentialHierarchical` derives from a hierarchy (`height − common prefix`) are symmetric … -/
+theorem hier_utility_symm (height : ℕ) (p q : List ℕ) : hierUtility height p q = hierUtility height q p :=
+  hierUtility_symm height p q
+
+/-- … and lie in `[1, height]` for two different leaves at the common level `height` -/
+theorem hier_utility_range (height : ℕ) (p q : List ℕ) (hp : p.length = height) (hq : q.length = height) (hne : p ≠ q) :
+    1 ≤ hierUtility height p q ∧ hierUtility height p q ≤ height :=
+  hierUtility_range height p q hp hq hne
+
+example : hierUtility 2 [0, 1] [1, 0] = 2 ∧ hierUtility 2 [0, 1] [0, 0] = 1 := by decide
+
 end DPL.C01
